@@ -8,6 +8,12 @@ NOT_APPLICABLE = {f"C{i:02d}": _PENDING for i in range(1, 21)}
 TRUST = "Trusted: rustc/std float semantics, the harness' own oracle code, the python driver. Held = held on the executions observed (exhaustive only for the sub-domains named in evidence)."
 
 CLAIMS = {
+    "C12": {
+        "text": "Runtime monitors with exact models: (1) every string of length <= 7 (thorough 9) over an 11-symbol adversarial alphabet (hex digits, non-hex letter, signs, '#', space, a 2-byte and a 4-byte character) and every single-symbol substitution/insertion/truncation of all-hex strings of each accepted length is parsed as each of the 10 parsable Rgb/Rgba types and compared with a strict recogniser/evaluator, panics caught; (2) {:x}/{:X} text of Rgb<u8> (thorough: all 2^24; quick: every 3rd) and seeded Rgba/u16/u32 values is compared with the expected zero-padded text and parsed back with and without '#'; (3) packed u32 values (thorough: all 2^32; quick: every 61st) are unpacked/packed in the four channel orders and checked against a big-endian byte-position model, incl. From<u32>/Into<u32>, [u8;4] packing and all 2^16 luma codes in both orders; (4) every named constant is looked up by its lower-case name against the frozen W3C table and ~25 000 near-miss and random non-names must not be found.",
+        "design_ref": "DESIGN.md section 3, C12",
+        "note": TRUST + " The name table is a frozen copy of codegen/res/svg_colors.txt of the pinned tree.",
+        "technique": "runtime monitoring: exhaustive enumeration of short strings / packed integers through the real parsers and packers against a strict grammar model and a byte-position model",
+    },
     "C13": {
         "text": "Shadow-buffer monitor + sanitizers: typed programs over layout-compatible colour types (all 266 ordered pairs of 17 three-float types that convert into each other, plus 16 chains with two or three further steps) run from_color_mut / from_color_unclamped_mut on slices of every length 0..=9 with writes through the guard, guard-kind switches, then_into_color(_unclamped)_mut steps and an end by drop, restore() or mem::forget; single values, Vec (with spare capacity, chained back) and Box<[T]> forms are run as well. After every step the real buffer is compared bit for bit with a shadow converted out of place, and address, length and capacity are compared before/after. cast::map_vec_in_place and map_slice_box_in_place are driven with a heap-owning, drop-counting component type and a closure that panics at every element k. The same driver runs under Miri (stacked borrows; thorough also tree borrows) and ASan; the native run has std ub_checks on.",
         "design_ref": "DESIGN.md section 3, C13",
